@@ -389,9 +389,8 @@ class Closure:
             for a in args:
                 cur = self.need(a, cur, F)
         elif op == "^":
-            cur = dict(S)
-            for a in args:
-                cur.update(self.need(a, cur, F))
+            for a in args:            # every argument sees the original input (rule.py:437-440)
+                self.need(a, S, F)
         else:
             for a in args:
                 self.need(a, S, F)
